@@ -63,9 +63,28 @@ func c18Mix(w *core.WorkerCtx, target *c18Node, feeders []*c18Node, users []*led
 	}
 	var known sync.Map // vertex hashes for by-hash reads
 	var parkedSeen, parkedDrained atomic.Int64
-	var orphans sync.Map
+	var orphans, orphanV sync.Map
+	var rebroadcast atomic.Int64
+	var ferrs sync.Map
 	seq := atomic.Int64{}
 
+	// a second peer of the target: it delivers every other parked vertex once more, a moment after the first copy was
+	// parked (its parent is still unknown then, so the copy cannot be admitted on arrival)
+	dupCh := make(chan accountant.Vertex, 4096)
+	var parkedN atomic.Int64
+	wg.Add(1)
+	go func() {
+		defer wg.Done()
+		for !stop.Load() {
+			select {
+			case v := <-dupCh:
+				time.Sleep(500 * time.Microsecond)
+				target.book.AddLeaf(ctx, ledger.CloneVertex(&v))
+				rebroadcast.Add(1)
+			case <-time.After(50 * time.Millisecond):
+			}
+		}
+	}()
 	// feeders: each builds its own branch on its own book and delivers to the target, sometimes child before parent
 	for fi, f := range feeders {
 		wg.Add(1)
@@ -85,8 +104,20 @@ func c18Mix(w *core.WorkerCtx, target *c18Node, feeders []*c18Node, users []*led
 					hold = &c // delivered after its child
 					continue
 				}
-				if err := target.book.AddLeaf(ctx, ledger.CloneVertex(&v)); ledger.IsParked(err) {
+				err = target.book.AddLeaf(ctx, ledger.CloneVertex(&v))
+				if fi == 0 {
+					ferrs.Store(c17ErrClass(err), true)
+				}
+				if ledger.IsParked(err) {
 					orphans.Store(v.Hash, true) // only the real retry ticker can admit it later
+					orphanV.Store(v.Hash, v)
+					// the same vertex from another peer, while its first copy is parked and its parent still unknown
+					if parkedN.Add(1)%2 == 0 {
+						select {
+						case dupCh <- v:
+						default:
+						}
+					}
 				}
 				cnt["deliver"].Add(1)
 				if hold != nil {
@@ -256,7 +287,9 @@ func c18Mix(w *core.WorkerCtx, target *c18Node, feeders []*c18Node, users []*led
 		}
 		return true
 	})
+	ferrs.Range(func(k, _ any) bool { r.Note("feeder 0 delivery outcome: " + k.(string)); return true })
 	r.Count("c18_orphans_parked", nOrphans)
+	r.Count("c18_duplicate_deliveries_of_parked_vertices", int(rebroadcast.Load()))
 	r.Count("c18_orphans_admitted_by_the_real_ticker", admitted)
 	if nOrphans > 0 && admitted == 0 {
 		r.Inconc("vertices were parked but none of them was admitted by the retry ticker during the run")
@@ -411,7 +444,7 @@ func init() {
 	core.Register(&core.Check{
 		Spec: core.Spec{
 			Prop:        "C18",
-			Rule:        "The monitor binary is built with -race and the workload runs in child processes with GORACE=halt_on_error=0 log_path=...; the parent parses the logs: every 'WARNING: DATA RACE' block is normalised (function names of both access stacks, line numbers stripped), de-duplicated by the pair of innermost repository frames (outermost entry points in the detail) and is a violation unless listed; reports without a repository frame count as inconclusive (harness). Workload per batch on one loaded node (Config.Truncate=2000) for >= 9 s (quick) / 30 s (thorough), i.e. several periods of the real 2 s retry ticker: 2 feeder nodes delivering their own branches (one of them hands every 4th vertex over child-before-parent, after which its branch queues up behind the orphan buffer, so that the orphan buffer is in use while the real ticker drains it; the retry hook is not used), 2 local proposers, 2 balance readers, a history reader, a by-hash reader, a repeating DAG stream consumer, trusted-store updates; odd batches pre-build a 1080 vertex ledger and add truncation: a vertex of weight 3600+ makes the node's own truncation loop run the real truncate in its goroutine, plus truncations through the hook. A run in which vertices were parked but none was admitted by the real ticker is inconclusive. Non-trivial = every workload; evaluations = operations executed.",
+			Rule:        "The monitor binary is built with -race and the workload runs in child processes with GORACE=halt_on_error=0 log_path=...; the parent parses the logs: every 'WARNING: DATA RACE' block is normalised (function names of both access stacks, line numbers stripped), de-duplicated by the pair of innermost repository frames (outermost entry points in the detail) and is a violation unless listed; reports without a repository frame count as inconclusive (harness). Workload per batch on one loaded node (Config.Truncate=2000) for >= 9 s (quick) / 30 s (thorough), i.e. several periods of the real 2 s retry ticker: 2 feeder nodes delivering their own branches (one of them hands every 4th vertex over child-before-parent and a second peer goroutine delivers every other vertex that got parked once more half a millisecond later (the same vertex from another peer, while the first copy is parked), after which its branch queues up behind the orphan buffer, so that the orphan buffer is in use while the real ticker drains it; the retry hook is not used), 2 local proposers, 2 balance readers, a history reader, a by-hash reader, a repeating DAG stream consumer, trusted-store updates; odd batches pre-build a 1080 vertex ledger and add truncation: a vertex of weight 3600+ makes the node's own truncation loop run the real truncate in its goroutine, plus truncations through the hook. A run in which vertices were parked but none was admitted by the real ticker is inconclusive. Non-trivial = every workload; evaluations = operations executed.",
 			Assumptions: []string{"the Go race detector reports only races that occur in the executed schedule", "the snapshot hook is not used while the workload runs (only VerifParkedLen, which takes the buffer's own lock)"},
 			MinEvals:    2000, MinNontriv: 2,
 			MinCounters: map[string]int{"c18_propose": 50, "c18_deliver": 50, "c18_balance": 50, "c18_stream": 5, "c18_deliver_orphan_first": 4},
